@@ -212,26 +212,7 @@ Proof.
 Qed.
 
 (* ---------------------------------------------------------------- Miller(g, n): one strong-pseudoprime round *)
-Definition miller_sweep_ok (n : Z) : bool :=
-  negb (primeb n) || forallb (fun a => match miller_model [a] n with Some true => true | _ => false end) (Zseq 1 (Z.to_nat (n - 1))).
-Definition MILLER_RANGE : nat := 252.
-Lemma miller_sweep : forallb miller_sweep_ok (Zseq 4 MILLER_RANGE) = true.
-Proof. vm_compute. reflexivity. Qed.
-Lemma MILLER_RANGE_eq : Z.of_nat MILLER_RANGE = 252. Proof. reflexivity. Qed.
-Global Opaque MILLER_RANGE.
-
-(* every witness 1 <= a < n accepts every prime 4 <= n < 256: bounded sweep (the general statement is Fermat's little
-   theorem plus the square roots of 1 modulo a prime; not proved here) *)
-Definition Miller_partial_stmt : Prop :=
-  forall n a, 4 <= n < 256 -> prime n -> 1 <= a < n -> miller_model [a] n = Some true.
-Lemma miller_partial : Miller_partial_stmt.
-Proof.
-  intros n a Hn Hp Ha.
-  pose proof (ProofsSweep.sweep_lift miller_sweep_ok 4 MILLER_RANGE miller_sweep n ltac:(rewrite MILLER_RANGE_eq; lia)) as H.
-  unfold miller_sweep_ok in H. apply primeb_spec in Hp. rewrite Hp in H. cbn [negb orb] in H.
-  rewrite forallb_forall in H. specialize (H a). rewrite In_Zseq in H. rewrite Z2Nat.id in H by lia.
-  specialize (H ltac:(lia)). destruct (miller_model [a] n) as [[|]|]; [reflexivity|discriminate|discriminate].
-Qed.
+(* that Miller accepts every prime for every witness is proved in ProofsMiller.v (Fermat's little theorem) *)
 
 (* the witness 0: either the source draws a non-zero witness (0 in the script is skipped), or Miller rejects the prime 5 *)
 Definition Miller_zero_stmt : Prop :=
